@@ -209,6 +209,8 @@ def run_cases(mod, ctx, cases, kinds_wanted='mgs'):
     for r in res:
         for key in ('m', 'g', 's'):
             if r[key] is not None and (r[key].startswith('bad-')):
+                if key == 's' and r['case'].spec is not None and r['sline'] != 's:' + r['case'].line:
+                    continue      # the Spec request embeds the implementation's answer: unparsable answer = disagreement
                 raise C_.MachineryFault(f'driver could not parse request `{r["case"].line[:200]}` ({key}): {r[key]}')
     return res
 
